@@ -14,8 +14,8 @@ import subprocess
 import sys
 import time
 
-REPO = "/repo"
-VERIF = "/verif"
+REPO = os.environ.get("VERIF_REPO", "/repo")
+VERIF = os.path.dirname(os.path.dirname(os.path.abspath(__file__)))
 ALL = [f"C{n:02d}" for n in range(1, 21)]
 RESULTS = os.path.join(VERIF, "campaign-results.jsonl")
 
